@@ -37,6 +37,18 @@ META = dict(
          "return while the driver itself PINGs the server directly at the monitor's pace: a limiter still in fallback after an "
          "unbroken series of answered PINGs over 10 s is the disagreement C08:token:no-return (whether or not a ping of the monitor "
          "reached the server); a server that does not answer the driver either is harness trouble. "
+         "RATE and BURST of the in-process bucket are dimensions of their own: the bucket of the outage is refilled continuously from "
+         "the clock the caller supplies (the script sees whole seconds), so TokenLimit.tla keeps a millisecond part of the caller clock "
+         "(Step) and the in-process bucket twice: refilled continuously, in millitokens - exact for every rate - and refilled once per whole "
+         "caller second like the script's (the statement counts time in whole seconds, so either is 'a bucket of the same rate and burst'); a "
+         "request is decided only where both readings agree (granted if both hold n tokens, denied if neither does: ReadingsAgree), which on "
+         "whole-second behaviours is always. Model-checked with half-second steps for Bound (t real-valued for that bucket), NotStarved (what "
+         "has been refilled in whole seconds is granted), AllowExact and DenialIdempotent; two families "
+         "of behaviours that begin with the outage are replayed for 14 configurations (rates 3, 7, 300, 600, 999 not dividing 1000, 1500 and "
+         "5000 above it, 5 and 1000 dividing it; burst above, equal to and below the rate): every behaviour up to a bound with millisecond "
+         "steps just before / at the refill instant of the k-th token (1000*k/rate ms rounded down and up) and request sizes at the "
+         "boundary of the grant rule (all the bucket holds, one more, burst+1), and seeded long behaviours with several outages and "
+         "steps of 1 ms .. 1 s, seconds, a minute and an hour; the bound burst+rate*t is evaluated on the observed grants with t in ms. "
          "Concurrent use (code -> spec): many goroutines on ONE limiter, in rounds of barrier-separated phases with clock steps "
          "between them (one caller asking for burst+1 tokens, callers for 1 and 2 tokens, callers with cancelled contexts; "
          "several takers per key on several keys), once with the binary built with the race detector (a race report is the "
@@ -65,7 +77,11 @@ META = dict(
          "that never reached Redis although it was up is a disagreement. Align() is covered for the window length handed to Redis and the resulting TTL (table of "
          "PeriodLimit!AlignedWindow for the wall-clock seconds of the run, three zone offsets, four periods), not for "
          "histories across an aligned boundary (wall clock cannot be steered). Bound is stated per bucket (Redis bucket, rescue "
-         "bucket): the rescue bucket starts full at the first outage, so no joint bound exists in the design.",
+         "bucket): the rescue bucket starts full at the first outage, so no joint bound exists in the design. In-process bucket: a token "
+         "interval of 1/rate s cannot be hit exactly on a nanosecond clock (time.Second/rate truncates: rate high by less than rate/10^9 of "
+         "itself, e.g. 1500 -> 1500.0015/s, one surplus token per 11 minutes of sustained demand); TokenLimit!RescueSlack bounds that surplus since "
+         "the bucket was last full and denials closer than that to the threshold are not generated (all grants and all other denials are "
+         "compared exactly; an interval coarser than nanoseconds exceeds the slack within milliseconds).",
     technique="TLA+ specs (PeriodLimit, TokenLimit) + TLC-generated behaviours replayed on the real limiters over miniredis",
     design="4/C08")
 
@@ -75,6 +91,7 @@ FINISH = dict(rule="behaviours = complete TLC enumeration (BFS over the history 
 
 PCFG = "{<<1,1>>, <<2,1>>, <<3,2>>, <<2,3>>}"
 TCFG = "{<<1,1>>, <<1,2>>, <<2,1>>, <<3,2>>, <<2,3>>}"
+NOSUB = dict(MsSteps="{}", EdgeK="{}", LongSteps="{}", Wide="FALSE")       # whole caller seconds, request sizes 1..MaxN only
 
 
 def mc(ctx):
@@ -83,11 +100,18 @@ def mc(ctx):
                           properties=["KeysIndependent", "FreshOnlyAfterExpiry"], constraints=["Bound_"])
     ctx.tlc("PeriodLimit", cfg, constants=K, defs=dict(Bound_="Len(log) <= %d /\\ srv <= %d" % ((4, 4) if ctx.quick else (5, 6))),
             name="PeriodLimit-mc", timeout=900, workers=W, heap="2g")
-    K = dict(Configs="{<<1,1>>, <<3,2>>, <<2,3>>}", MaxN=2, MaxStep=2, Holds="{1000}")
+    K = dict(Configs="{<<1,1>>, <<3,2>>, <<2,3>>}", MaxN=2, MaxStep=2, Holds="{1000}", **NOSUB)
     cfg = core.render_cfg(spec="Spec", constants=K, invariants=["TypeOK", "ScriptIsIdeal", "RedisIsIdeal", "Bound"],
-                          properties=["Fallback", "Return", "OnlyPingReturns", "AllowExact", "DenialIdempotent"], constraints=["Bound_"])
+                          properties=["Fallback", "Return", "OnlyPingReturns", "AllowExact", "DenialIdempotent", "NotStarved", "ReadingsAgree"], constraints=["Bound_"])
     ctx.tlc("TokenLimit", cfg, constants=K, defs=dict(Bound_="Len(glog) <= %d /\\ now <= %d" % ((3, 3) if ctx.quick else (3, 4))),
             name="TokenLimit-mc", timeout=900, workers=W, heap="3g")
+    # the same properties with the caller clock moving by milliseconds (the in-process bucket is refilled continuously,
+    # the script sees whole seconds), rates that do not divide 1000 and request sizes relative to the bucket
+    K = dict(Configs=("{<<3,2>>, <<7,4>>}" if ctx.quick else "{<<3,2>>, <<7,4>>, <<2,3>>}"), MaxN=1, MaxStep=1, Holds="{}", MsSteps="{500}", EdgeK="{}", LongSteps="{}", Wide="TRUE")
+    cfg = core.render_cfg(spec="Spec", constants=K, invariants=["TypeOK", "ScriptIsIdeal", "RedisIsIdeal", "Bound"],
+                          properties=["Fallback", "Return", "OnlyPingReturns", "AllowExact", "DenialIdempotent", "NotStarved", "ReadingsAgree"], constraints=["Bound_"])
+    ctx.tlc("TokenLimit", cfg, constants=K, defs=dict(Bound_="Len(glog) <= %d /\\ now <= %d" % ((2, 1) if ctx.quick else (3, 1))),
+            name="TokenLimit-mc-ms", timeout=900, workers=W, heap="3g")
 
 
 def mc_monitor(ctx):
@@ -213,6 +237,67 @@ def outage_duration(ctx, binp):
     ctx.notes["outage-duration"] = "%d behaviours with an outage held for %s ms of real time; %d returns to Redis with the monitor older than 1 s, " \
         "%d older than 2 s, %d older than 5 s" % (len(sel), "/".join(map(str, holds)), cnt.get("up.ping.monitor-older-than-1s", 0),
                                                   cnt.get("up.ping.monitor-older-than-2s", 0), cnt.get("up.ping.monitor-older-than-5s", 0))
+
+
+# rate/burst configurations of the in-process-bucket families: rates that do not divide 1000 (3, 7, 300, 999), that
+# exceed it (1500, 5000), that divide it (5, 600 does not, 1000 does); burst above, equal to and below the rate
+RCFG = ["<<3,10>>", "<<7,20>>", "<<7,7>>", "<<300,600>>", "<<300,150>>", "<<999,999>>", "<<999,2500>>", "<<1500,1500>>",
+        "<<1500,4000>>", "<<5000,2500>>", "<<5000,12000>>", "<<600,600>>", "<<5,10>>", "<<1000,1000>>"]
+
+
+def rescue_gen(ctx):
+    """The behaviours of the two in-process-bucket families (TLC; run() has them generated in the background)."""
+    cfgs = "{" + ", ".join(RCFG) + "}"
+    return [("redge", gen_token(ctx, "redge", configs=cfgs, maxlen=(4 if ctx.quick else 5), maxn=0, maxstep=1, maxdown=1,
+                                edgek=("{1, 2}" if ctx.quick else "{1, 2, 3}"), wide=True, downfirst=True)),
+            ("rsim", one_per_prefix(gen_token(ctx, "rsim", configs=cfgs, maxlen=(60 if ctx.quick else 80), maxn=2, maxstep=2, maxdown=3,
+                                              mssteps="{1, 250, 999}", edgek="{1, 2, 5}", longsteps="{60, 3600}", wide=True, downfirst=True,
+                                              simulate=(400 if ctx.quick else 1000))))]
+
+
+def rescue_rate(ctx, binp, fams=None):
+    """RATE and BURST of the in-process bucket ("keeps limiting with an in-process bucket of the same rate and burst").
+    The bucket of the outage is refilled continuously from the caller's clock, so the behaviours of these families move
+    that clock by milliseconds (TokenLimit!Step) as well as by seconds, minutes and hours, and ask for what the model's
+    bucket holds, one more, and burst + 1 (Wide).  redge: every behaviour that begins with the outage, up to a bound, with
+    millisecond steps at the refill instants of the first tokens (just before / at 1000*k/rate ms); rsim: seeded long
+    behaviours with several outages, sub-second, multi-second and long steps.  Every decision is compared with the
+    millitoken bucket of TokenLimit.tla, the bound burst + rate*t is evaluated on the observed grants with t in ms."""
+    import json
+    before = len(ctx.disagreements)
+    fams = fams.result() if fams is not None else rescue_gen(ctx)
+    cnt = {}
+    seen = {}                                             # per configuration: what the inputs exercise (vacuity guard)
+    for name, cases in fams:
+        for c in cases:
+            st = json.loads(c)
+            k = (st[0]["rate"], st[0]["burst"])
+            d = seen.setdefault(k, dict(sub=0, denied=0, granted=0))
+            ms = 0
+            for x in st[1:]:
+                if x["op"] == "step":
+                    ms = (ms + x["ms"]) % 1000
+                elif x["op"] == "allow" and x["via"] == "rescue":
+                    d["sub"] += 1 if ms else 0
+                    d["granted"] += 1 if x["granted"] else 0
+                    d["denied"] += 1 if (not x["granted"] and x["n"] <= k[1]) else 0
+        path, _ = ctx.write_cases(name + ".ndjson", cases)
+        ctx.samples += core.sample_of(cases, 1)
+        c, _ = ctx.replay(PKG, OVERLAY, "^TestVerifC08Token$", path, label=name, shards=(4 if ctx.quick else 8), binp=binp,
+                          env=dict(VERIF_PAR=16))
+        for k, n in c.items():
+            cnt[k] = cnt.get(k, 0) + n
+    if len(ctx.disagreements) == before:                  # vacuity guards only when nothing disagrees
+        want = {tuple(int(x) for x in c.strip("<>").split(",")) for c in RCFG}
+        for k in sorted(want):
+            d = seen.get(k)
+            if not d or d["sub"] < 20 or d["denied"] < 10 or d["granted"] < 10:
+                raise core.Infra("in-process-bucket family is vacuous for rate=%d burst=%d: %s" % (k[0], k[1], d))
+        for k, n in (("allow.rescue.subsecond", 1000), ("allow.redis.subsecond", 20), ("step", 1000)):
+            if cnt.get(k, 0) < n:
+                raise core.Infra("in-process-bucket family is vacuous: counter %s = %d < %d" % (k, cnt.get(k, 0), n))
+    ctx.notes["in-process-bucket"] = "%d configurations (rates 3..5000, burst above/equal/below the rate), %d decisions of the in-process bucket at " \
+        "sub-second caller times" % (len(RCFG), cnt.get("allow.rescue.subsecond", 0))
 
 
 # ---------------------------------------------------------------- concurrent use (code -> spec)
@@ -377,7 +462,7 @@ def conc_validate(ctx, rounds):
             for r in rs:
                 r.setdefault("canon", max(_orders(p) for p in r["phases"]) > 64)
             ctx.counters["concv.token.rounds-searched-in-every-order"] = len([r for r in rs if not r["canon"] and "synthetic" not in r])
-            K = dict(Configs="{" + ", ".join(sorted({"<<%d, %d>>" % (r["rate"], r["burst"]) for r in rs})) + "}", MaxN=1, MaxStep=1, Holds="{}",
+            K = dict(Configs="{" + ", ".join(sorted({"<<%d, %d>>" % (r["rate"], r["burst"]) for r in rs})) + "}", MaxN=1, MaxStep=1, Holds="{}", **NOSUB,
                      Rounds=tla([dict(rate=r["rate"], burst=r["burst"], phases=[_phase(p, True, r["canon"]) for p in r["phases"]]) for r in rs]))
         else:
             keys = sorted({o["k"] for r in rs for p in r["phases"] for o in p["obs"]})
@@ -493,8 +578,10 @@ def gen_period(ctx, name, configs, maxlen, maxadv, maxburst, simulate=None):
     return r.printed
 
 
-def gen_token(ctx, name, configs, maxlen, maxn, maxstep, maxdown, simulate=None, holds="{}"):
-    K = dict(Configs=configs, MaxN=maxn, MaxStep=maxstep, MaxLen=maxlen, MaxDown=maxdown, Holds=holds)
+def gen_token(ctx, name, configs, maxlen, maxn, maxstep, maxdown, simulate=None, holds="{}", mssteps="{}", edgek="{}",
+              longsteps="{}", wide=False, downfirst=False):
+    K = dict(Configs=configs, MaxN=maxn, MaxStep=maxstep, MaxLen=maxlen, MaxDown=maxdown, Holds=holds, MsSteps=mssteps, EdgeK=edgek,
+             LongSteps=longsteps, Wide=("TRUE" if wide else "FALSE"), DownFirst=("TRUE" if downfirst else "FALSE"))
     cfg = core.render_cfg(spec="GSpec", constants=K, invariants=["Emit"])
     r = ctx.tlc("TokenLimitGen", cfg, constants=K, name=name, simulate=simulate, depth=maxlen + 2, timeout=900,
                 workers=(1 if simulate else W), heap="3g")
@@ -524,7 +611,9 @@ def run(ctx):
     # of theirs (core.Infra) surfaces at the end of run(), after the real code has been judged
     mc_runs = ex.submit(lambda: (mc(ctx), mc_monitor(ctx)))
     ctx.assumptions += ["server clock never ahead of the caller clock (DESIGN 5)", "caller clock monotone",
-                        "breaker coin forced to never-reject (H2)"]
+                        "breaker coin forced to never-reject (H2)",
+                        "in-process bucket: requests on which the whole-second and the continuous reading of the bucket differ are not generated",
+                        "in-process bucket: denials within RescueSlack (nanosecond granularity of the token interval) of the threshold are not generated"]
     if ctx.quick:
         pplans = [("p4", dict(configs=PCFG, maxlen=4, maxadv=3, maxburst=2))]
         psims = [("ps", dict(configs="{<<3,2>>, <<4,3>>, <<2,5>>}", maxlen=40, maxadv=4, maxburst=5), 300)]
@@ -569,12 +658,14 @@ def run(ctx):
     fams += [("^TestVerifC08Period$", name, genx.submit(prepare, gen_period, name, kw, num)) for name, kw, num in psims]
     fams += [("^TestVerifC08Token$", name, genx.submit(prepare, gen_token, name, kw)) for name, kw in tplans]
     fams += [("^TestVerifC08Token$", name, genx.submit(prepare, gen_token, name, kw, num)) for name, kw, num in tsims]
+    rfams = genx.submit(rescue_gen, ctx)
     for test, name, fut in fams:
         stage(replay_family, test, name, fut)
     stage(align, ctx, binp)
     stage(real_breaker, ctx, binp)
     stage(two_outages, ctx, binp)
     stage(outage_duration, ctx, binp)
+    stage(rescue_rate, ctx, binp, rfams)
     stage(concurrent, ctx, binp)
     stage(lambda: conc_stage(ctx, conc_runs.result()))
     stage(mc_runs.result)
